@@ -139,7 +139,10 @@ def build_driver(wd, classes, target, sanitize=False, tag="", decl_first=False):
     if decl_first:
         # another order of the generator's entry points: the cffi declarations of the classes (what ContextCpu.build_kernels asks
         # for, with the configuration it uses) are produced BEFORE the API source is generated for the first time
-        "\n".join(cls._gen_c_decl({}) for cls in ordered)
+        if decl_first == "default":        # ... with the generator's own default configuration
+            "\n".join(cls._gen_c_decl() for cls in ordered)
+        else:
+            "\n".join(cls._gen_c_decl({}) for cls in ordered)
     source, _ = ctx._build_sources(classes=ordered, extra_headers=[], specialize=False)
     spec = specialize_source(source, specialize_for=target)
     funcs_by_cls = [(c, api_functions(c)) for c in classes]
@@ -362,6 +365,15 @@ LIVE_TYPES = [
 ]
 
 
+# pairs of types whose nested array classes are NAMESAKES in the library's own naming (same item type and shape, another axis
+# order), each built in a kernel module of its own within one process
+NAMESAKE_PAIRS = [
+    (X.struct(X.sc("Int64"), X.arr(X.sc("Float64"), [2, 3], [0, 1])), X.struct(X.sc("Int64"), X.arr(X.sc("Float64"), [2, 3], [1, 0]))),
+    (X.struct(X.sc("Int8"), X.arr(X.sc("Int32"), [2, 2, 3], [2, 0, 1])), X.struct(X.sc("Int8"), X.arr(X.sc("Int32"), [2, 2, 3], [0, 1, 2]))),
+    (X.arr(X.arr(X.sc("Int16"), [3, 2], [1, 0]), [-1]), X.arr(X.arr(X.sc("Int16"), [3, 2], [0, 1]), [-1])),
+]
+
+
 def live_records(run, pid):
     """runs _live_child in a separate process (a write through a stale pointer may kill it: that is a violation, not a
     machinery failure) and returns (records, info)"""
@@ -401,12 +413,14 @@ def _live_child(seed, tier, out):
     def emit(obj):
         fo.write(json.dumps(obj) + "\n")
         fo.flush()
-    for i in range(n):
+    pair = NAMESAKE_PAIRS[seed % len(NAMESAKE_PAIRS)] if tier == "quick" else [t for p_ in NAMESAKE_PAIRS for t in p_]
+    plan_ = [(LIVE_TYPES[(i + seed) % len(LIVE_TYPES)], False) for i in range(n)] + [(t, True) for t in pair]
+    for i, (tx, native) in enumerate(plan_):
         rng = random.Random(f"{seed}:live:{i}")
         w = World(rng, caps=[0, 64, 64], aligns=[1, 1, 1], dirty=False)       # buffer 0 is exactly full after every allocation
         w.index = i
         w.ns.prefix = f"L{i}w"
-        tx = LIVE_TYPES[(i + seed) % len(LIVE_TYPES)]
+        w.ns.native_arrays = native
         with C.memory_guard():
             k1 = w.new(tx, 0, mindim=1, allow=("null", "new"))
         if k1 is None:
@@ -538,7 +552,7 @@ def _check(run, pid):
         rng = random.Random(f"{seed}:plan:{g0}")
         per_target = {}
         table = None
-        state["decl_first"] = (pid == "C15" and ((g0 // group) % 2 == 1 if not run.replay else bool(rp.get("decl_first"))))
+        state["decl_first"] = (pid == "C15" and ([False, "empty", "default"][(g0 // group) % 3] if not run.replay else rp.get("decl_first", False)))
         for tgt in targets:
             exe, table, spec, err = build_driver(run.tmp, classes, tgt, sanitize=False, tag=f"_{g0}", decl_first=state["decl_first"])
             if exe is None:
@@ -609,6 +623,17 @@ def _check(run, pid):
                     msg = first_err[0] if first_err else p.stderr[-300:]
                     kind = "address-space" if "address space" in p.stderr else "other"
                     run.report(f"opencl-frontend:{kind}", f"clang -x cl rejects the OpenCL form: {msg}", dict(seed=seed, world=idxs[0], target="opencl"))
+            # (d) the positive half of the address-space clause: the front end only objects to conversions BETWEEN address spaces, so a
+            # form that carries no qualifier anywhere is consistent for it.  Every pointer type written in the generated API points
+            # into object memory: each must be spelled with __global.
+            if "opencl" in per_target:
+                txt = per_target["opencl"][1]
+                bare = [m.group(0) for m in re.finditer(r"(?<![\w])(?:const\s+)?(?:struct\s+\w+|char|double|float|u?int(?:8|16|32|64)_t)\s*\*", txt)
+                        if not re.search(r"__global\s+(?:const\s+)?$", txt[max(0, m.start() - 24):m.start()])]
+                stats["opencl_pointer_types_scanned"] += len(re.findall(r"__global", txt))
+                if bare:
+                    run.report("opencl-form:pointer-into-object-memory-without-global", f"{len(bare)} pointer types of the OpenCL form carry no __global, e.g. `{bare[0]}`",
+                               dict(seed=seed, world=idxs[0], target="opencl"))
             val_targets = ["opencl", "cuda"]
         else:
             val_targets = ["cpu_serial"]
